@@ -228,6 +228,7 @@ def bounded_raytrace(kind):
     S[2:, 0] = rng.uniform(-0.1, 0.1, nr - 2)
     S[2:, 1] = rng.uniform(-0.1, 0.1, nr - 2)
     S /= np.sqrt((S * S).sum(axis=1))[:, None]
+    P, S = vary_layout(rng, P), vary_layout(rng, S)      # ray bundles in any memory layout
     if tilt is not None:
         P[0] = 0.0     # axial ray of the untilted frame is just another skew ray here
     if rng.random() < 0.25:
